@@ -20,9 +20,16 @@ func TestDbgA(t *testing.T) {
 	for i := 0; i < 30; i++ {
 		rv = append(rv, &ua.ReadValueID{NodeID: ua.NewStringNodeID(nsTest, "big"), AttributeID: ua.AttributeIDValue, DataEncoding: &ua.QualifiedName{}})
 	}
-	v, err := a.call(&ua.ReadRequest{NodesToRead: rv}, nil, 3*time.Second)
-	fmt.Printf("%T %v\n", v, err)
-	if rr, ok := v.(*ua.ReadResponse); ok {
-		fmt.Println(len(rr.Results), rr.Results[0].Status, len(fmt.Sprint(rr.Results[0].Value.Value())))
+	id, rest, _ := encodeReq(&ua.ReadRequest{NodesToRead: rv})
+	for i := 0; i < 40; i++ {
+		_, err := a.sendBody(buildBody(id, nil, uint32(i+2), rest))
+		if err != nil {
+			fmt.Println("send", i, err)
+		}
+	}
+	for i := 0; i < 8; i++ {
+		d, err := e.canaryRead()
+		fmt.Println("canary", d, err)
+		time.Sleep(200 * time.Millisecond)
 	}
 }
